@@ -6,12 +6,15 @@ EXTENDS HashImpl, Json
 
 SimCtx3 == 0..2
 SimCtx5 == 0..4
+SimCtx9 == 0..8
 SimNone == -1
+DumpLen == 24
+DumpLen56 == 56
 VARIABLE hist
 HInit == IInit /\ hist = << >>
 HNext == \/ \E c \in Ctx, f \in 0..4, n \in SegLens :
               SubmitAct(c, f, n) /\ hist' = Append(hist, << "s", c, f, n, lastRet' >>)
          \/ FlushAct /\ hist' = Append(hist, << "f", 0, 0, 0, lastRet' >>)
 HSpec == HInit /\ [][HNext]_<< ivars, hist >>
-DumpAtEnd == Len(hist) >= 24 => PrintT("BEH " \o ToJson([h |-> hist]))
+DumpAtEnd == Len(hist) >= DumpLen => PrintT("BEH " \o ToJson([h |-> hist]))
 =============================================================================
